@@ -69,6 +69,25 @@ CHECKS["C16"] = ("enumx", "model_checking", "exhaustive enumeration of a local-e
     "Every environment (8 centres x 3 charges x 3 spins / hints 0..3, neighbours from {C,H,F,metal} x 5..6 bond types pairwise (thorough: full product) x 5..8 poses incl. bonds along +-z) plus hadd_test.mol2 and all 123 CDXML fragments goes through the real add_implicit_hydrogens; oracle = the property's count formula with independent tables, frame conditions (nothing else changes), every new H bonded once at r_cov sum, finite, pointing away; idempotence.",
     "Distance tolerance 1e-3 A (the routine's 4-digit constants); direction clause judged against either centroid definition; hints > 3 and explicit-atom calls not enumerated.", "4 C16")
 
+CHECKS["C05"] = ("seqx", "model_checking", "explicit-state BFS over edit histories of real Molecule/Structure objects (and Substructure/Conformer views) from 12 start states against a reference model keyed by atom identity",
+    "Every edit history (add/new/del atom by object, index, label, element incl. impossible variants; connect; append_bond(s) with member/foreign atoms; del_bond; remove_substituent; add_implicit_hydrogens) up to the stated depths from empty, built, file-loaded, cloned and unpickled molecules is executed with state deduplication; after every step one coordinate row and one numeric charge per atom, every survivor's row/charge, the bond multiset, parents and indices are compared with the reference model.",
+    "Depth 2 full alphabet / 3 small starts / 5 add-del-connect core in quick (thorough 3/4/8); atom-count-changing edits on views are outside 'where the operation is defined'.", "4 C05")
+CHECKS["C06"] = ("seqx", "model_checking", "exhaustive matrix source class x copy route x mutation x direction (thorough: all chains of two routes and ordered pairs of mutations), each a short history on real objects",
+    "All 57 (source class, route) combinations (copy constructors, pickle, deepcopy, concatenate, |, join, ensemble constructors) x 24 mutations x both directions are executed; a deep structural snapshot walker written for the check compares copy with source right after copying and the untouched side before/after the other side was edited.",
+    "copy.copy and Substructure are views by definition and not claimed; name/charge/mult/attrib of products and join geometry belong to C12.", "4 C06")
+CHECKS["C07"] = ("enumx", "model_checking", "exhaustive enumeration of all (element x atom type x geometry) typings atom-locally and through text, all bond types and set-histories, small-scope structures through every writer/reader entry point",
+    "All 44 982 typings (119 x 21 x 18 in this tree) and all bond types go through get/set/get and through written text; every small-scope structure (0..3 atoms, name/label/coordinate/charge alphabets incl. NaN, 1e7, half-way decimals, every bond subset, 1..3 conformers) goes through 3 writers x 15 readers and a second write; oracle = independent spec of the structure with the tolerances the property states (1e-6 / 1e-3) and byte-identical second write.",
+    "Whitespace-free labels and one-line names only (as the property states); one typing defect (X.pl3/.th/.oh rewritten as X) is a recorded known finding.", "4 C07")
+CHECKS["C08"] = ("enumx", "model_checking", "exhaustive enumeration of small geometries (0..3 atoms, all 119 elements, dummy atoms, coordinate alphabet, 1..3 frames, explicit formats) through every xyz writer/reader entry point, and of every DistanceUnit member through every xyz and mol2 reader",
+    "Every geometry of the alphabet is written by 3 writers and read by 21 readers as CartesianGeometry/Structure/Molecule/ConformerEnsemble and compared to written precision; for every member of DistanceUnit the same geometry expressed in that unit by the harness's own CODATA table is read with source_units and its coordinates compared (rel. 1e-5) with the Angstrom original.",
+    "Coordinate lattice (no +-inf, |x| <= 1e7); <= 3 atoms (thorough 4).", "4 C08")
+CHECKS["C17"] = ("seqx", "model_checking", "exhaustive enumeration of driver creation/use histories (2..3 drivers, 2..3 jobs, held handles) and of command lists of length 1..4 x failure positions x missing return files x input/env variants, executed through the real runner in-process and through the installed console script",
+    "Every history of creating/using drivers with pairwise distinct settings is executed and each JobInput compared with its own driver; every command list over a 7-command alphabet (thorough: all 7^4) with all naming masks, return-file subsets, text/binary inputs and env overrides is run through molli.pipeline.runner.run_local (and a representative/all subset through /venv/bin/_molli_run) and compared with a reference interpreter observed through marker files (order, stop at first failure, captured output, returned bytes, hash, exit rule, no scratch residue).",
+    "External QM programs are absent: harness-defined drivers in the style of XTBDriver exercise the generic machinery; timeouts and n_workers>1 not enumerated.", "4 C17")
+CHECKS["C18"] = ("seqx", "model_checking", "exhaustive DFS over histories of 1..2 (thorough 3) jobmap runs with scripted per-item outcomes, cache tampering, kwargs changes, pre-populated and fresh destinations, single and vectorised jobs, deduplicated by model state",
+    "Every history over 2 (thorough 3) items with per-unit scripts {succeed, fail, fail-then-succeed, omit file, fail after writing}, between-run actions {none, delete/corrupt a cached output} x {same/changed kwargs} x {same/fresh destination}, foreign destination keys, single and per-conformer jobs is executed through the real jobmap (runner in-process; thorough re-runs a subset through the real subprocess runner); oracle = reference model of destination contents and per-unit execution counts read from marker files.",
+    "n_workers=1; jobmap_sge (no qsub) not executed; where all commands exit 0 but the return file is missing both 0 and 1 re-executions are accepted (the code's own notion of success is ambiguous there).", "4 C18")
+
 PENDING = {
 }
 
